@@ -30,7 +30,7 @@ SCHEDULES = {
 }
 
 
-def make_pipeline(ctx, prop, kind, mtype, keys, num_anneals, sched, init, in_order, stale=None, B=1000, seed=3, tempr=None):
+def make_pipeline(ctx, prop, kind, mtype, keys, num_anneals, sched, init, in_order, stale=None, B=1000, seed=3, tempr=None, twice=False):
     """kind: quso|puso|qubo|pubo; mtype: type name or 'dict'; keys: list of label tuples (ints for Matrix types);
     init: None | 'up' | 'mixed' | 'partial'; stale: None | 'cancelled-variable' | 'all-cancelled'"""
     import qubovert as qv
@@ -105,6 +105,15 @@ def make_pipeline(ctx, prop, kind, mtype, keys, num_anneals, sched, init, in_ord
                 else:
                     kw['schedule'] = list(sc)
                 try:
+                    if twice:
+                        # history: anneal, edit the same object in place (swap two coefficients, move the offset), anneal again;
+                        # the second result is the one judged, against the edited model
+                        fn(M, **kw)
+                        br.calls.clear()
+                        k0, k1 = keys[0], keys[-1]
+                        v0, v1 = M[k0], M[k1]
+                        M[k0], M[k1] = v1, v0
+                        snap = dict(M) if isinstance(M, dict) else None
                     res = fn(M, **kw)
                 except UB as e:
                     return dict(status='UB', msg=str(e), br=br)
@@ -120,11 +129,14 @@ def make_pipeline(ctx, prop, kind, mtype, keys, num_anneals, sched, init, in_ord
         e = 0
         if stale == 'all-cancelled' and mtype != 'dict':
             return 0
+        coef = dict(syms)
+        if twice:
+            coef[keys[0]], coef[keys[-1]] = syms[keys[-1]], syms[keys[0]]
         for k in keys:
             if boolean:
-                t = syms[k] if all(state[i] for i in k) else 0
+                t = coef[k] if all(state[i] for i in k) else 0
             else:
-                t = syms[k]
+                t = coef[k]
                 for i in k: t = t * state[i]
             e = e + t
         return e
@@ -136,6 +148,8 @@ def make_pipeline(ctx, prop, kind, mtype, keys, num_anneals, sched, init, in_ord
     def check(out):
         obs = []
         br = out['br']
+        if not hasattr(ctx, 'extra_functions'): ctx.extra_functions = set()
+        ctx.extra_functions |= {'C-IR:' + n for n in br.called}
         if out['status'] == 'UB':
             return [Ob('no undefined behaviour / memory error / leak in the extension', False, info={'ub': out['msg']}, sig='UB: ' + out['msg'].split(':')[0][:60])]
         obs.append(Ob('no undefined behaviour / memory error / leak in the extension', True))
